@@ -138,7 +138,7 @@ CLAIMS = {
 }
 
 NOT_APPLICABLE = {
-    "C04": "rollback step lemmas need the change-file directory model (std::fs read_dir / numeric file names) and the holes region; not built in the time available - no check, nothing claimed",
+    "C04": "the commit/rollback step harnesses (kani/vecdb/raw_rw.rs c04_raw_commit_undo_*) go through the real change-record parser, whose Vec allocations exhaust memory during symbolic execution even with every count concrete; the change directory (numeric file names through format!/parse, read_dir) is not encodable - no check, nothing claimed",
     "C07": "codec internals (Pco/LZ4/Zstd numeric loops, C FFI) are out of reach of Kani; the framework half was encoded (kani/vecdb/comp_rw.rs: real write() with an identity codec and 16-byte pages via a cfg(kani) page-size hook, 13 concrete shapes) but every shape exhausts memory (4.4 M symex steps, out of memory at a 40 GB cap) - nothing claimed. Only the Pages::flush lemma (persisted page index == in-memory index) is decided, and it is listed under C20",
     "C16": "only the cursor arithmetic of the change-record parser is decided (harness c17_change_cursor_bounds, listed under C17); the whole-record parser harness exhausts memory (symbolic-length collect), retention (save_change_file: numeric file names via string formatting) and rollback_before are not encodable within reach - nothing claimed",
 }
